@@ -623,6 +623,10 @@ def prepare(case, tables):
         terms.append(term)
         # difference subtotals of the sorted dimension (for the finding class)
         v.diff_subs = [j for j, s in enumerate(v.idim.subtotals) if len(s.subtrahend_idxs) > 0]
+        # insertion ids of the difference subtotals of the OPPOSING dimension (same finding class:
+        # their public population estimate is NaN while the sort key is their numeric proportion)
+        v.opp_diff_ids = ([] if strand else
+                          [s.insertion_id for s in idims[1 - k].subtotals if len(s.subtrahend_idxs) > 0])
         views.append(v)
     return {"obs": obs, "views": views, "terms": terms, "info": info}
 
@@ -842,6 +846,11 @@ def compare_model(v, dec, obs, exp):
 def finding_class(v, group):
     kw = v.od.get("measure")
     if kw == "population" and v.diff_subs and group in ("subtotals",):
+        return "population-difference-subtotal"
+    # the same defect seen from the other side: sorting by the population of an opposing DIFFERENCE
+    # insertion - every public value is NaN, the key is the numeric proportion of the difference
+    if (kw == "population" and v.od.get("type") == "opposing_insertion"
+            and v.od.get("insertion_id") in getattr(v, "opp_diff_ids", [])):
         return "population-difference-subtotal"
     return "other"
 
